@@ -9,6 +9,8 @@ use crate::reference as rf;
 use crate::stubs::{self, sym::*};
 use crate::tp;
 use crate::h::c01::rsuite;
+use crate::h::p01::{program, MAP_DST_EXTRA};
+use elliptic_curve::model::oracle;
 
 pub fn update_contract<CS: BbsCiphersuite, const N: usize, const UI: usize, const UIMAXK: usize, const OLEN: usize, const NLEN: usize>()
 where
@@ -24,7 +26,11 @@ where
     let w: [u8; NLEN] = kani::any();
     let ui: usize = if UIMAXK > 0 { usize::MAX - (UIMAXK - 1) } else { UI };
     tp!("kind", "update"); tp!("suite", crate::h::c08::suite_tag::<CS>()); tp!("n", N); tp!("ui", ui); tp!("old", &o[..]); tp!("new", &w[..]);
+    // programmed oracle: query 0 maps the old value, query 1 the new value
+    program(2);
     let r = sig.update_signature(&sk, &o, &w, ui, N);
+    let orc = oracle();
+    orc.on = false;
     kani::cover!(r.is_ok() || r.is_err(), "returned");
     if ui >= N {
         assert!(r.is_err(), "C12: update at an out-of-range position was not refused");
@@ -32,8 +38,12 @@ where
     }
     let api = rsuite::<CS>().api_id(false);
     let h = stubs::model_gen(ui + 1, false);
-    let old_s = rf::map_to_scalar::<CS::Expander>(&o, &api);
-    let new_s = rf::map_to_scalar::<CS::Expander>(&w, &api);
+    assert!(orc.n == 2 && orc.msg_len[0] == OLEN && orc.msg_len[1] == NLEN
+        && orc.dst_len[0] == api.len() + MAP_DST_EXTRA && orc.dst_len[1] == api.len() + MAP_DST_EXTRA
+        && crate::h::p01::all_dsts_start_with(2, &api),
+        "C12/C10: update_signature does not map exactly (old, new) under the message-mapping DST");
+    let old_s = rf::scalar_of_state(orc.ans[0]);
+    let new_s = rf::scalar_of_state(orc.ans[1]);
     let ske = sk.0 + sig.e();
     let b_new = sig.a() * ske - h * old_s + h * new_s;
     if ske == Scalar::ZERO || b_new == G1Projective::IDENTITY {
